@@ -114,7 +114,7 @@ def run_history(desc):
             if op == "compute2":
                 stock.compute()
                 compare(results(stock), r1, "second compute()", "compute-not-idempotent")
-            ref_cfg = dict(cfg, driver=list(cur_driver))
+            ref_cfg = dict(cfg, driver=list(cur_driver), lt_via="instance")
             if cur_lt:
                 ref_cfg["lt"] = cur_lt
             if cfg["cls"] == "simple":
